@@ -10,14 +10,14 @@ Import ListNotations.
 Local Open Scope nat_scope.
 
 Lemma wiring_correct_reachable e u ops dc tau st names :
-  UnivOK e u -> DefsSingle (run u ops) ->
+  UnivOK e u ->
   encode_model e u (run u ops) dc tau = ROk (st, names) ->
   (forall p, In p (e_dedup st) -> fst p = snd p) ->
   exists ord, toposort_full (run u ops) = inl ord /\ Permutation ord (node_ids (run u ops)) /\ ~ has_cycle (run u ops) /\
     option_map (erase_defs (def_names e (run u ops))) (decode_wiring names (e_log st))
     = Some (wiring_spec e u (run u ops) dc ord).
 Proof.
-  intros UO DS. apply wiring_correct_encode_model; [apply reach_inv | now apply enc_inv_reachable].
+  intros UO. apply wiring_correct_encode_model; [apply reach_inv | now apply enc_inv_reachable].
 Qed.
 
 Lemma encode_reachable_cycle e u ops dc tau :
